@@ -191,7 +191,79 @@ class Annot(ast.NodeTransformer):
         return fn
 
 
-TRANSFORMS = {"rename": Rename, "notis": NotIs, "swapis": SwapIs, "invertif": InvertIf, "testlocal": TestLocal, "elsereturn": ElseReturn, "annot": Annot}
+class WhileTrue(ast.NodeTransformer):
+    def visit_While(self, n):
+        self.generic_visit(n)
+        if n.orelse or (isinstance(n.test, ast.Constant) and n.test.value is True):
+            return n
+        brk = ast.If(test=ast.UnaryOp(op=ast.Not(), operand=n.test), body=[ast.Break()], orelse=[])
+        return ast.While(test=ast.Constant(value=True), body=[brk] + n.body, orelse=[])
+
+
+class IfExpAssign(ast.NodeTransformer):
+    def visit_If(self, n):
+        self.generic_visit(n)
+        if len(n.body) == 1 and len(n.orelse) == 1 and all(isinstance(b, ast.Assign) and len(b.targets) == 1 and isinstance(b.targets[0], ast.Name) for b in (n.body[0], n.orelse[0])) \
+                and n.body[0].targets[0].id == n.orelse[0].targets[0].id and not any(isinstance(x, ast.NamedExpr) for x in ast.walk(n)):
+            return ast.Assign(targets=[n.body[0].targets[0]], value=ast.IfExp(test=n.test, body=n.body[0].value, orelse=n.orelse[0].value))
+        if len(n.body) == 1 and len(n.orelse) == 1 and all(isinstance(b, ast.Return) and b.value is not None for b in (n.body[0], n.orelse[0])):
+            return ast.Return(value=ast.IfExp(test=n.test, body=n.body[0].value, orelse=n.orelse[0].value))
+        return n
+
+
+class ExtractArg(ast.NodeTransformer):
+    """f(g(x), ...) as a statement / assigned / returned, with f a plain name: the first argument is evaluated into a temporary first."""
+
+    def __init__(self):
+        self.k = 0
+
+    def _block(self, stmts):
+        out = []
+        for st in stmts:
+            v = st.value if isinstance(st, (ast.Expr, ast.Assign, ast.Return)) else None
+            if isinstance(v, ast.Call) and isinstance(v.func, ast.Name) and v.args and isinstance(v.args[0], ast.Call) \
+                    and not any(isinstance(x, (ast.NamedExpr, ast.Yield, ast.YieldFrom, ast.Await, ast.Starred)) for x in ast.walk(v)) \
+                    and not (isinstance(st, ast.Assign) and not all(isinstance(t, ast.Name) for t in st.targets)):
+                self.k += 1
+                nm = f"_a{self.k}"
+                out.append(ast.Assign(targets=[ast.Name(id=nm, ctx=ast.Store())], value=v.args[0]))
+                v.args[0] = ast.Name(id=nm, ctx=ast.Load())
+            out.append(st)
+        return out
+
+    def generic_visit(self, node):
+        super().generic_visit(node)
+        if isinstance(node, (ast.Module, ast.ClassDef)):
+            return node
+        for f in ("body", "orelse", "finalbody"):
+            b = getattr(node, f, None)
+            if isinstance(b, list) and b and isinstance(b[0], ast.stmt):
+                setattr(node, f, self._block(b))
+        return node
+
+
+class Keywords(ast.NodeTransformer):
+    """Positional arguments of calls to the NamedTuple / dataclass-like classes defined in the same module become keywords."""
+
+    def visit_Module(self, m):
+        self.fields = {}
+        for st in m.body:
+            if isinstance(st, ast.ClassDef) and any((isinstance(b, ast.Name) and b.id == "NamedTuple") or (isinstance(b, ast.Attribute) and b.attr == "NamedTuple") for b in st.bases):
+                self.fields[st.name] = [x.target.id for x in st.body if isinstance(x, ast.AnnAssign) and isinstance(x.target, ast.Name)]
+        self.generic_visit(m)
+        return m
+
+    def visit_Call(self, c):
+        self.generic_visit(c)
+        if isinstance(c.func, ast.Name) and c.func.id in self.fields and c.args and not any(isinstance(a, ast.Starred) for a in c.args) \
+                and len(c.args) <= len(self.fields[c.func.id]):
+            names = self.fields[c.func.id]
+            c.keywords = [ast.keyword(arg=names[i], value=a) for i, a in enumerate(c.args)] + c.keywords
+            c.args = []
+        return c
+
+
+TRANSFORMS = {"whiletrue": WhileTrue, "ifexp": IfExpAssign, "extractarg": ExtractArg, "keywords": Keywords, "rename": Rename, "notis": NotIs, "swapis": SwapIs, "invertif": InvertIf, "testlocal": TestLocal, "elsereturn": ElseReturn, "annot": Annot}
 
 
 def transform_tree(root: str, name: str) -> int:
